@@ -92,27 +92,40 @@ struct Chan {
     receiver_alive: bool,
 }
 
-#[derive(Clone, Debug)]
+#[derive(Clone, Debug, PartialEq, Eq)]
 pub struct Datagram {
     pub deliver_at: u64,
-    pub bytes: Vec<u8>,
+    pub bytes: Arc<Vec<u8>>,
     pub from: SocketAddrV4,
     pub id: u64,
+    /// tie-breaker among copies of one datagram
+    pub copy: u8,
+}
+impl Ord for Datagram {
+    fn cmp(&self, o: &Self) -> std::cmp::Ordering {
+        // earliest first when wrapped in `Reverse`
+        (self.deliver_at, self.id, self.copy).cmp(&(o.deliver_at, o.id, o.copy))
+    }
+}
+impl PartialOrd for Datagram {
+    fn partial_cmp(&self, o: &Self) -> Option<std::cmp::Ordering> {
+        Some(self.cmp(o))
+    }
 }
 
 struct Sock {
     addr: SocketAddrV4,
     open: bool,
-    queue: Vec<Datagram>,
+    queue: std::collections::BinaryHeap<std::cmp::Reverse<Datagram>>,
 }
 
 #[derive(Clone, Debug, Serialize)]
 pub enum UdpEvent {
     Bind { sock: usize, addr: String, t: u64 },
     /// An attempt to send as seen at the seam (before faults are applied).
-    SendTo { sock: usize, from: String, to: String, bytes: Vec<u8>, t: u64, id: u64, outcome: &'static str },
+    SendTo { sock: usize, from: String, to: String, bytes: Arc<Vec<u8>>, t: u64, id: u64, outcome: &'static str },
     /// A datagram handed to `recv_from`.
-    Recv { sock: usize, to: String, from: String, bytes: Vec<u8>, t: u64, id: u64 },
+    Recv { sock: usize, to: String, from: String, bytes: Arc<Vec<u8>>, t: u64, id: u64 },
     RecvTimeout { sock: usize, t: u64 },
     RecvErr { sock: usize, t: u64 },
 }
@@ -224,7 +237,7 @@ impl Inner {
             St::UdpRecv(s, deadline) => {
                 self.aborting.is_some()
                     || deadline.map(|d| self.clock >= d).unwrap_or(false)
-                    || self.socks[*s].queue.iter().any(|d| d.deliver_at <= self.clock)
+                    || self.socks[*s].queue.peek().map(|d| d.0.deliver_at <= self.clock).unwrap_or(false)
             }
             St::WaitIdle => (0..self.threads.len()).all(|j| j == i || self.threads[j].st == St::WaitIdle || !self.enabled(j)),
             St::Drain => self
@@ -247,8 +260,8 @@ impl Inner {
                     if let Some(d) = deadline {
                         upd(*d)
                     }
-                    for d in &self.socks[*s].queue {
-                        upd(d.deliver_at)
+                    if let Some(d) = self.socks[*s].queue.peek() {
+                        upd(d.0.deliver_at)
                     }
                 }
                 _ => {}
@@ -495,7 +508,8 @@ impl Sched {
         g.next_dgram += 1;
         let now = g.clock;
         let Some(si) = g.socks.iter().position(|s| s.open && s.addr == to) else { return None };
-        g.socks[si].queue.push(Datagram { deliver_at: at, bytes: bytes.clone(), from, id });
+        let bytes = Arc::new(bytes);
+        g.socks[si].queue.push(std::cmp::Reverse(Datagram { deliver_at: at, bytes: bytes.clone(), from, id, copy: 0 }));
         g.udp_log.push(UdpEvent::SendTo {
             sock: usize::MAX,
             from: from.to_string(),
@@ -861,7 +875,7 @@ impl Hooks for Sched {
         if g.socks.iter().any(|s| s.open && s.addr == addr) {
             return Err(std::io::Error::new(std::io::ErrorKind::AddrInUse, "address in use"));
         }
-        g.socks.push(Sock { addr, open: true, queue: Vec::new() });
+        g.socks.push(Sock { addr, open: true, queue: Default::default() });
         let sock = g.socks.len() - 1;
         let t = g.clock;
         g.udp_log.push(UdpEvent::Bind { sock, addr: addr.to_string(), t });
@@ -885,6 +899,7 @@ impl Hooks for Sched {
         g.next_dgram += 1;
         let now = g.clock;
         let spec = g.spec.udp.clone();
+        let payload = Arc::new(buf.to_vec());
         let mut outcome = "queued";
         let err = (g.rng.below(100) as u8) < spec.send_err_pct;
         let dropped = (g.rng.below(100) as u8) < spec.drop_pct;
@@ -902,18 +917,18 @@ impl Hooks for Sched {
             g.stats.udp_dropped += 1;
         } else {
             let ti = target.unwrap();
-            g.socks[ti].queue.push(Datagram { deliver_at: now + d1, bytes: buf.to_vec(), from, id });
+            g.socks[ti].queue.push(std::cmp::Reverse(Datagram { deliver_at: now + d1, bytes: payload.clone(), from, id, copy: 0 }));
             if dup {
                 outcome = "duplicated";
                 g.stats.udp_duplicated += 1;
-                g.socks[ti].queue.push(Datagram { deliver_at: now + d1 + d2, bytes: buf.to_vec(), from, id });
+                g.socks[ti].queue.push(std::cmp::Reverse(Datagram { deliver_at: now + d1 + d2, bytes: payload.clone(), from, id, copy: 1 }));
             }
         }
         g.udp_log.push(UdpEvent::SendTo {
             sock,
             from: from.to_string(),
             to: dst4.to_string(),
-            bytes: buf.to_vec(),
+            bytes: payload,
             t: now,
             id,
             outcome,
@@ -943,37 +958,23 @@ impl Hooks for Sched {
         g.threads[me].st = St::Runnable;
         let now = g.clock;
         let spec = g.spec.udp.clone();
-        // earliest deliverable datagram (ties: lowest id, then queue position)
-        let mut best: Option<usize> = None;
-        for (i, d) in g.socks[sock].queue.iter().enumerate() {
-            if d.deliver_at <= now {
-                let better = match best {
-                    None => true,
-                    Some(b) => {
-                        let bd = &g.socks[sock].queue[b];
-                        (d.deliver_at, d.id) < (bd.deliver_at, bd.id)
-                    }
-                };
-                if better {
-                    best = Some(i);
-                }
-            }
-        }
+        // earliest deliverable datagram (ties: lowest id)
+        let best = g.socks[sock].queue.peek().map(|d| d.0.deliver_at <= now).unwrap_or(false);
         match best {
-            Some(i) => {
+            true => {
                 if (g.rng.below(100) as u8) < spec.recv_err_pct {
                     g.stats.udp_recv_errs += 1;
                     g.udp_log.push(UdpEvent::RecvErr { sock, t: now });
                     return Err(std::io::Error::new(std::io::ErrorKind::Interrupted, "injected recv error"));
                 }
-                let d = g.socks[sock].queue.remove(i);
+                let d = g.socks[sock].queue.pop().unwrap().0;
                 let n = d.bytes.len().min(buf.len());
                 buf[..n].copy_from_slice(&d.bytes[..n]);
                 let to = g.socks[sock].addr.to_string();
                 g.udp_log.push(UdpEvent::Recv { sock, to, from: d.from.to_string(), bytes: d.bytes.clone(), t: now, id: d.id });
                 Ok((n, SocketAddr::V4(d.from)))
             }
-            None => {
+            false => {
                 g.stats.udp_timeouts += 1;
                 g.udp_log.push(UdpEvent::RecvTimeout { sock, t: now });
                 Err(std::io::Error::new(std::io::ErrorKind::WouldBlock, "timed out"))
